@@ -40,6 +40,8 @@ func runC06(c *Ctx) {
 	ruleNoLocalInputInGroup(c, "R6.4")
 	ruleEchoBroadcastOrder(c, "R6.5")
 	ruleDecodedElementsNotShared(c, "R6.7")
+	ruleReshareConfig(c, "R6.8")  // old and new side of a resharing get the parameters of their own epoch
+	ruleBroadcastReachesEverySender(c, "R6.9")
 	ruleSignedCoverage(c, "R6.6") // the terms the final group is built from are the terms every node verified: all of them are signed
 }
 
@@ -621,4 +623,70 @@ func ruleDecodedElementsNotShared(c *Ctx, rule string) {
 		}
 	}
 	c.Floor(rule, "per-element decodes in the DKG bundle decoders", n, 1)
+}
+
+// R6.9: what the echo broadcast relays reaches every other participant. In the dispatcher the loop over its senders
+// hands the packet to each of them: no iteration skips the send. A deal, response or justification that one node never
+// gets makes that node judge the dealers differently from the rest, and the qualified sets (hence the groups) differ.
+func ruleBroadcastReachesEverySender(c *Ctx, rule string) {
+	c.ranRules[rule] = true
+	n := 0
+	for _, name := range []string{"internal/dkg.(*dispatcher).broadcast", "internal/dkg.(*dispatcher).broadcastDirect"} {
+		fn := c.P.Fn(name)
+		if !c.Anchor(rule, name, fn != nil) {
+			continue
+		}
+		calls := callsIn(fn, func(ci ssa.CallInstruction) bool {
+			m := calleeName(ci)
+			return strings.HasSuffix(m, "internal/dkg.sender).sendPacket") || strings.HasSuffix(m, "internal/dkg.sender).sendDirect")
+		})
+		for _, ci := range calls {
+			n++
+			ok, why := executedEveryIteration(ci.(ssa.Instruction))
+			// and the loop runs over all the senders
+			c.Ok(rule, fnShort(fn)+" hands the packet to every sender", shortPos(c.P, ci), ok, why)
+		}
+	}
+	c.Floor(rule, "sends in the dispatcher's broadcast loops", n, 2)
+}
+
+// executedEveryIteration: in is inside a loop and no path from the start of the loop body back to the loop header avoids it.
+func executedEveryIteration(in ssa.Instruction) (bool, string) {
+	blk := in.Block()
+	var header *ssa.BasicBlock
+	for h := blk; h != nil; h = h.Idom() {
+		isHeader := false
+		for _, p := range h.Preds {
+			if h.Dominates(p) {
+				isHeader = true
+			}
+		}
+		if isHeader {
+			header = h
+			break
+		}
+	}
+	if header == nil {
+		return false, "not inside a loop"
+	}
+	if header == blk {
+		return true, "executed in the loop header itself"
+	}
+	var body *ssa.BasicBlock
+	for _, s := range header.Succs {
+		if s == blk || s.Dominates(blk) {
+			body = s
+		}
+	}
+	if body == nil {
+		return false, "the send is not dominated by the start of the loop body"
+	}
+	if body == blk {
+		return true, "first block of the loop body"
+	}
+	skip := reachableAvoidingFrom(body, header, func(e edge) bool { return e.from == blk })
+	if skip {
+		return false, "a path through the loop body returns to the loop header without sending: some sender is skipped"
+	}
+	return true, "every path through the loop body passes the send"
 }
